@@ -1,51 +1,31 @@
 (* C05 -- children(), parent() and parents() describe the real process tree.
    Statements only; proofs live in C05/Lib.v, C05/Proofs.v, C05/ProofsParent.v.
    Model: C05/Model.v (transcription of psutil/__init__.py children/parent/parents/
-   ppid and _pslinux.ppid_map; [as_is] = the code as it is, the [fx_*] flags = the
-   proposed repairs), specification: C05/Spec.v.
+   ppid and _pslinux.ppid_map; [as_is] = the code as it is now, [before_fixes] = the
+   code before the three repairs 6afb079 / 3959fba / e202d3b), specification: C05/Spec.v.
    t = the listed process table (pid, ppid, start ticks), any size, any parent links;
-   gone = PIDs vanishing after the ppid_map() snapshot; o = the caller object. *)
+   gone = PIDs vanishing after the ppid_map() snapshot; o = the caller object;
+   fuel = number of loop iterations allowed (None = exhausted = no termination). *)
 From PV Require Import C05.Spec C05.Lib C05.Proofs C05.ProofsParent.
 
-(* children(): exactly the listed processes naming the caller as parent, still there
-   and not started before it, in listing order (caller not recorded as its own parent) *)
+(* children(): exactly the listed processes naming the caller as parent, never the
+   caller itself, still there and not started before it, in listing order *)
 Theorem C05_children_direct : forall t gone o,
-  wf_table t = true -> alive_b t o = true -> own_parent_b t (o_pid o) = false ->
+  wf_table t = true -> alive_b t o = true ->
   children_direct as_is t gone o = Val (spec_children t gone (o_pid o) (o_ident o)).
 Proof. exact children_direct_exact. Qed.
 Print Assumptions C05_children_direct.
 
-(* finding: with a ppid self-loop the caller is returned as its own child *)
-Theorem C05_children_direct_self_refuted :
-  exists t o, wf_table t = true /\ alive_b t o = true /\
-              exists l, children_direct as_is t [] o = Val l /\ In (o_pid o) l.
-Proof. exact children_direct_self_refuted. Qed.
-Print Assumptions C05_children_direct_self_refuted.
-
 (* children(recursive=True): with fuel |t|+1 the loop ends, every process is returned
-   at most once, and the result is exactly the set reachable through parent links *)
+   at most once, never the caller, and the result is exactly the set reachable from the
+   caller through parent links (least set; through processes that are still there and
+   not older than the caller) *)
 Theorem C05_children_rec_exact : forall t gone o,
   wf_table t = true -> alive_b t o = true ->
   exists l, children_rec as_is (S (length t)) t gone o = Val (Some l) /\ NoDup l /\
-            forall q, In q l <-> desc t gone (o_pid o) (o_ident o) q.
+            forall q, In q l <-> (desc t gone (o_pid o) (o_ident o) q /\ q <> o_pid o).
 Proof. exact children_rec_exact. Qed.
 Print Assumptions C05_children_rec_exact.
-
-(* ... never the caller itself, when the caller is not its own descendant *)
-Theorem C05_children_rec_no_self : forall t gone o,
-  wf_table t = true -> alive_b t o = true ->
-  ~ desc t gone (o_pid o) (o_ident o) (o_pid o) ->
-  exists l, children_rec as_is (S (length t)) t gone o = Val (Some l) /\ NoDup l /\
-            forall q, In q l <-> (desc t gone (o_pid o) (o_ident o) q /\ q <> o_pid o).
-Proof. exact children_rec_no_self. Qed.
-Print Assumptions C05_children_rec_no_self.
-
-(* finding: on a ppid cycle through the caller the caller itself is returned *)
-Theorem C05_children_rec_self_refuted :
-  exists t o, wf_table t = true /\ alive_b t o = true /\
-              exists l, children_rec as_is (S (length t)) t [] o = Val (Some l) /\ In (o_pid o) l.
-Proof. exact children_rec_self_refuted. Qed.
-Print Assumptions C05_children_rec_self_refuted.
 
 (* termination on ANY parent-link graph (cycles, self-loops, unlisted parents), for any
    caller state, any vanished set, with or without the repairs: |t|+1 iterations suffice *)
@@ -53,20 +33,6 @@ Theorem C05_children_rec_terminates : forall fx t gone o,
   NoDup (pids_of t) -> children_rec fx (S (length t)) t gone o <> Val None.
 Proof. exact children_rec_terminates. Qed.
 Print Assumptions C05_children_rec_terminates.
-
-(* with the proposed repair (skip the caller's own PID) both calls meet the property in full *)
-Theorem C05_children_direct_patched : forall fx t gone o,
-  fx_skip_self fx = true -> wf_table t = true -> alive_b t o = true ->
-  children_direct fx t gone o = Val (spec_children t gone (o_pid o) (o_ident o)).
-Proof. exact children_direct_patched. Qed.
-Print Assumptions C05_children_direct_patched.
-
-Theorem C05_children_rec_patched : forall fx t gone o,
-  fx_skip_self fx = true -> wf_table t = true -> alive_b t o = true ->
-  exists l, children_rec fx (S (length t)) t gone o = Val (Some l) /\ NoDup l /\
-            forall q, In q l <-> (desc t gone (o_pid o) (o_ident o) q /\ q <> o_pid o).
-Proof. exact children_rec_patched. Qed.
-Print Assumptions C05_children_rec_patched.
 
 (* the computable descendant test used by the harness only accepts descendants *)
 Theorem C05_climbs_sound : forall t gone self s0 n q,
@@ -79,6 +45,20 @@ Theorem C05_children_recycled : forall fx fuel t gone o, recycled_b t o = true -
   children_direct fx t gone o = Exc NoSuchProcess /\ children_rec fx fuel t gone o = Exc NoSuchProcess.
 Proof. exact children_recycled. Qed.
 Print Assumptions C05_children_recycled.
+
+(* fixed (6afb079): before the repair the caller was returned as its own child / descendant
+   on a ppid self-loop / cycle; the old code returned exactly the reachable set, caller included *)
+Theorem C05_children_direct_old_refuted :
+  exists t o, wf_table t = true /\ alive_b t o = true /\
+              exists l, children_direct before_fixes t [] o = Val l /\ In (o_pid o) l.
+Proof. exact children_direct_old_refuted. Qed.
+Print Assumptions C05_children_direct_old_refuted.
+
+Theorem C05_children_rec_old_refuted :
+  exists t o, wf_table t = true /\ alive_b t o = true /\
+              exists l, children_rec before_fixes (S (length t)) t [] o = Val (Some l) /\ In (o_pid o) l.
+Proof. exact children_rec_old_refuted. Qed.
+Print Assumptions C05_children_rec_old_refuted.
 
 (* parent(): the process named by ppid() unless unlisted or younger than the caller;
    none for the root (lowest listed PID) -- with a fresh lowest-PID cache *)
@@ -93,33 +73,47 @@ Theorem C05_root_is_lowest : forall t r, root_of (pids_of t) = Some r ->
 Proof. exact root_of_is_root. Qed.
 Print Assumptions C05_root_is_lowest.
 
-(* finding: a stale _LOWEST_PID makes parent() return None for a process whose parent is listed and older *)
+(* known finding: a stale _LOWEST_PID makes parent() return None for a process whose
+   parent is listed and older (hence the hypothesis "cache fresh" above) *)
 Theorem C05_parent_stale_cache_refuted :
   exists t cache o, wf_table t = true /\ alive_b t o = true /\
     spec_parent t (o_pid o) (o_ident o) = Some (1, 1) /\ parent as_is t cache o = Val None.
 Proof. exact parent_stale_cache_refuted. Qed.
 Print Assumptions C05_parent_stale_cache_refuted.
 
-(* recycled caller: NoSuchProcess, unless parent() takes the caller for the lowest PID *)
-Theorem C05_parent_recycled : forall t cache o low, recycled_b t o = true ->
-  lowest_pid t cache = Val low -> o_pid o <> low ->
+(* recycled caller: NoSuchProcess from parent() and parents(), whatever table and cache hold *)
+Theorem C05_parent_recycled : forall t cache o, recycled_b t o = true ->
   parent as_is t cache o = Exc NoSuchProcess.
 Proof. exact parent_recycled. Qed.
 Print Assumptions C05_parent_recycled.
 
-(* finding: the recycled lowest PID gets None / [] instead of NoSuchProcess *)
-Theorem C05_parent_recycled_lowest_refuted :
+Theorem C05_parents_recycled : forall t cache o fuel, recycled_b t o = true ->
+  parents as_is fuel t cache o = Exc NoSuchProcess.
+Proof. exact parents_recycled. Qed.
+Print Assumptions C05_parents_recycled.
+
+(* fixed (3959fba): before the repair the recycled lowest PID got None / [] *)
+Theorem C05_parent_recycled_old_refuted :
   exists t o, wf_table t = true /\ recycled_b t o = true /\
-    parent as_is t None o = Val None /\ parents as_is 3 t None o = Val (Some []).
-Proof. exact parent_recycled_lowest_refuted. Qed.
-Print Assumptions C05_parent_recycled_lowest_refuted.
+    parent before_fixes t None o = Val None /\ parents before_fixes 3 t None o = Val (Some []).
+Proof. exact parent_recycled_old_refuted. Qed.
+Print Assumptions C05_parent_recycled_old_refuted.
 
-Theorem C05_parent_recycled_patched : forall fx t cache o,
-  fx_parent_reuse fx = true -> recycled_b t o = true -> parent fx t cache o = Exc NoSuchProcess.
-Proof. exact parent_recycled_patched. Qed.
-Print Assumptions C05_parent_recycled_patched.
+(* parents() terminates within |t|+1 loop tests on ANY table (cyclic links included),
+   any cache, any caller *)
+Theorem C05_parents_terminates : forall fx t cache o, fx_parents_seen fx = true ->
+  parents fx (S (length t)) t cache o <> Val None.
+Proof. exact parents_terminates. Qed.
+Print Assumptions C05_parents_terminates.
 
-(* parents(): whenever the chain of parent() ends, parents() returns exactly that chain ... *)
+(* ... always returns a list for a live caller ... *)
+Theorem C05_parents_total : forall t cache o,
+  wf_table t = true -> alive_b t o = true -> cache_fresh_b t cache = true ->
+  exists l, parents as_is (S (length t)) t cache o = Val (Some l).
+Proof. exact parents_total. Qed.
+Print Assumptions C05_parents_total.
+
+(* ... which is the chain of parent() up to the root whenever that chain ends ... *)
 Theorem C05_parents_chain_complete : forall t cache o l fuel,
   wf_table t = true -> alive_b t o = true -> cache_fresh_b t cache = true ->
   chain t (o_pid o) l -> (length l <= fuel)%nat ->
@@ -127,29 +121,24 @@ Theorem C05_parents_chain_complete : forall t cache o l fuel,
 Proof. exact parents_chain_complete. Qed.
 Print Assumptions C05_parents_chain_complete.
 
-(* ... anything it returns is that chain ... *)
-Theorem C05_parents_chain_sound : forall t cache o l fuel,
+(* ... and the chain does end, and is what parents() returns, on every table in which no
+   process is its own ancestor *)
+Theorem C05_parents_acyclic_chain : forall t cache o,
   wf_table t = true -> alive_b t o = true -> cache_fresh_b t cache = true ->
-  parents as_is fuel t cache o = Val (Some l) -> chain t (o_pid o) l.
-Proof. exact parents_chain_sound. Qed.
-Print Assumptions C05_parents_chain_sound.
+  (forall p k, up t (S k) p <> Some p) ->
+  exists l, parents as_is (S (length t)) t cache o = Val (Some l) /\ chain t (o_pid o) l.
+Proof. exact parents_acyclic_chain. Qed.
+Print Assumptions C05_parents_acyclic_chain.
 
-(* ... and the only other outcome is not terminating within the fuel (never an exception) *)
-Theorem C05_parents_total : forall t cache o fuel,
-  wf_table t = true -> alive_b t o = true -> cache_fresh_b t cache = true ->
-  parents as_is fuel t cache o = Val None \/ exists l, parents as_is fuel t cache o = Val (Some l).
-Proof. exact parents_total. Qed.
-Print Assumptions C05_parents_total.
+(* decidable sufficient condition for "no process is its own ancestor" *)
+Theorem C05_strictly_older_acyclic : forall t, strictly_older_b t = true ->
+  forall p k, up t (S k) p <> Some p.
+Proof. exact strictly_older_acyclic. Qed.
+Print Assumptions C05_strictly_older_acyclic.
 
-(* finding: on a ppid self-loop parents() exhausts every fuel: it does not terminate *)
-Theorem C05_parents_nonterminating_refuted :
+(* fixed (e202d3b): before the repair parents() exhausted every fuel on a ppid self-loop *)
+Theorem C05_parents_old_nonterminating_refuted :
   exists t o, wf_table t = true /\ alive_b t o = true /\
-              forall fuel, parents as_is fuel t None o = Val None.
-Proof. exact parents_nonterminating_refuted. Qed.
-Print Assumptions C05_parents_nonterminating_refuted.
-
-Theorem C05_parents_recycled : forall t cache o low fuel, recycled_b t o = true ->
-  lowest_pid t cache = Val low -> o_pid o <> low ->
-  parents as_is fuel t cache o = Exc NoSuchProcess.
-Proof. exact parents_recycled. Qed.
-Print Assumptions C05_parents_recycled.
+              forall fuel, parents before_fixes fuel t None o = Val None.
+Proof. exact parents_old_nonterminating_refuted. Qed.
+Print Assumptions C05_parents_old_nonterminating_refuted.
